@@ -43,7 +43,11 @@ func (c *vc06MetricsConsumer) mutate() {
 	r := c.got.ResourceMetrics().At(0)
 	r.Resource().Attributes().PutInt("touched-by", int64(c.idx))
 	dps := r.ScopeMetrics().At(0).Metrics().At(0).Gauge().DataPoints()
-	dps.At(0).SetTimestamp(pcommon.Timestamp(c.mutation))
+	if dps.Len() > 0 {
+		dps.At(0).SetTimestamp(pcommon.Timestamp(c.mutation))
+	} else {
+		dps.AppendEmpty().SetTimestamp(pcommon.Timestamp(c.mutation)) // the payload carried a metric without data points
+	}
 	dps.AppendEmpty().SetTimestamp(pcommon.Timestamp(c.mutation + 1))
 	r.ScopeMetrics().At(0).Metrics().At(0).SetName("renamed")
 }
@@ -90,8 +94,10 @@ func VerifC06Metrics() {
 	m := r.ScopeMetrics().AppendEmpty().Metrics().AppendEmpty()
 	m.SetName("m0")
 	dps := m.SetEmptyGauge().DataPoints()
-	dps.AppendEmpty().SetTimestamp(pcommon.Timestamp(vNondetUint64("ts")))
-	dps.AppendEmpty().SetTimestamp(pcommon.Timestamp(vNondetUint64("ts")))
+	if vChoice("metric-without-data-points", 2) == 0 {
+		dps.AppendEmpty().SetTimestamp(pcommon.Timestamp(vNondetUint64("ts")))
+		dps.AppendEmpty().SetTimestamp(pcommon.Timestamp(vNondetUint64("ts")))
+	}
 	if vChoice("input-read-only", 2) == 1 {
 		d.MarkReadOnly()
 	}
@@ -124,6 +130,10 @@ func VerifC06Metrics() {
 		} else {
 			s := vc06SnapMetrics(c.got)
 			ok := s.touched && len(s.ts) == len(orig.ts)+2 && s.ts[0] == c.mutation && s.ts[1] == orig.ts[1]
+			if len(orig.ts) == 0 {
+				// a metric without data points: the first mutation appended two points, the second rewrote the first and appended one
+				ok = s.touched && len(s.ts) == 3 && s.ts[0] == c.mutation && s.ts[1] == c.mutation-6 && s.ts[2] == c.mutation+1
+			}
 			vAssert(ok, "metrics/mutating-consumer-sees-only-its-own-changes")
 			vAssert(!c.got.IsReadOnly(), "metrics/mutating-consumer-gets-mutable-data")
 		}
